@@ -127,7 +127,7 @@ class LimitMonitor(hist.Monitor):
 
 
 def n_cases(tier):
-    return 900 if tier == "quick" else 60000
+    return 900 if tier == "quick" else 25000
 
 
 def gen_case(rng, tier, index):
